@@ -1,5 +1,5 @@
 #!/usr/bin/env python3
-"""Translator: honeycomb-kernels/src/remeshing/{cut,swap}.rs -> coq/theories/Map2/GenKern.v
+"""Translator: honeycomb-kernels/src/remeshing/{cut,swap,collapse (half-cells)}.rs, cell_insertion/vertices.rs, triangulation/fan.rs -> coq/theories/Map2/GenKern.v
 
 The straight-line transactional kernels are translated statement by statement into the program monad of Stm/Prog.v
 with the vocabulary of Map2/Ops2.v and Map2/Kern2.v (continuation-passing: each statement wraps the rest).
@@ -24,6 +24,10 @@ with the vocabulary of Map2/Ops2.v and Map2/Kern2.v (continuation-passing: each 
   map.write_vertex(t, i, v)?;  map.write_attribute(t, i, a)?;  map.remove_attribute::<K>(t, i)?;
                                                         write_vertex i v / write_attr K i a / remove_attr K i  ;;; REST
   Ok(())                                                Ret tt   (omitted after a unit statement)
+  map.remove_free_dart_transac(t, d)?;                  remove_dart_tx d ;;; REST
+  if x != NULL_DART_ID { B1 } else { B2 }               if negb (x =? 0) then B1 else B2   (parenthesised and followed by REST when not last)
+  if map.beta_transac::<I>(t, d)? != NULL_DART_ID { B } x <- rdB I d ;; (if negb (x =? 0) then B else Ret tt) ;;; REST
+  (d1, .., dk): (DartIdType, .., DartIdType)            tuple parameter: k dart parameters
 
 The attribute kind of `write_attribute` is the Rust type of its value; the translator tracks the anchor type of every
 variable (read/remove_attribute::<K>, `K::from(a)`). `K::from(a)` between anchor kinds is the identity on the model's
@@ -123,7 +127,7 @@ def split_stmts(body):
 def fn_parts(src, name):
     """-> ([(rust name, kind)], body) ; kind: 'dart' | ('pair',) | 'optsc'.  The receiver and the transaction may come
     in either order and under either pair of names (t, map) / (cmap, trans); the body is normalised to (map, t)."""
-    m = re.search(r"pub fn %s\s*<[^>]*>\s*\(" % name, src)
+    m = re.search(r"(?:pub )?fn %s\s*<[^>]*>\s*\(" % name, src)
     if not m:
         raise Fail("function %s not found" % name)
     j = match_close(src, m.end() - 1)
@@ -141,7 +145,13 @@ def fn_parts(src, name):
         me_ = re.fullmatch(r"(\w+): &\[DartIdType\]", p)
         mc = re.fullmatch(r"(\w+): \(DartIdType, DartIdType\)", p)
         md = re.fullmatch(r"(\w+): Option<T>", p)
-        if ma:
+        mt_ = re.fullmatch(r"\(([\w, ]+)\): \((DartIdType(?:, DartIdType)*)\)", p)
+        if mt_:
+            ns = [x.strip() for x in mt_.group(1).split(",")]
+            if len(ns) != len(mt_.group(2).split(",")):
+                raise Fail("%s: tuple pattern arity" % name)
+            specs += [(x, "dart") for x in ns]
+        elif ma:
             ns = [x.strip() for x in ma.group(1).split(",")]
             if len(ns) != int(ma.group(2)):
                 raise Fail("%s: array pattern arity" % name)
@@ -244,6 +254,9 @@ class Tr:
                 self.bad("sew arity", c)
             a = self.val(m.group(3), env)[0] + ((" " + self.val(m.group(4), env)[0]) if m.group(4) else "")
             return "%s %s" % (SEW[(m.group(1), m.group(2))], a), True
+        m = re.fullmatch(r"map\.remove_free_dart_transac\(t, (\w+)\)", c)
+        if m:
+            return "remove_dart_tx %s" % self.val(m.group(1), env)[0], True
         m = re.fullmatch(r"map\.write_vertex\(t, (\w+), (\w+)\)", c)
         if m:
             return "write_vertex %s %s" % (self.val(m.group(1), env)[0], self.val(m.group(2), env)[0]), True
@@ -304,7 +317,9 @@ class Tr:
             return "Ret tt"
         s, tail = st[0]
         rest = st[1:]
-        last = (not rest) or (len(rest) == 1 and rest[0][0] == "Ok(())")
+        if s == "TransactionClosureResult::Ok(())":
+            s = "Ok(())"
+        last = (not rest) or (len(rest) == 1 and rest[0][0] in ("Ok(())", "TransactionClosureResult::Ok(())"))
 
         def then(unit_txt, is_unit=True):
             if last and is_unit:
@@ -458,6 +473,22 @@ class Tr:
             er = ERR[m.group(5)]
             return ("%s <- %s ;;\n  %s <- %s ;;\n  match %s with\n  | Some %s =>\n  match %s with\n  | Some %s =>\n  %s\n  | None => Fail %s\n  end\n  | None => Fail %s\n  end"
                     % (o1, e1, o2, e2, o1, a_, o2, b_, self.stmts(rest, env2), er, er))
+        # two-branch statement: if X != NULL { B1 } else { B2 }
+        m = re.match(r"if (\w+) != NULL_DART_ID \{", s)
+        if m:
+            c1 = match_close(s, m.end() - 1)
+            me = re.fullmatch(r"else \{(.*)\}", s[c1 + 1:].strip())
+            if me:
+                b1 = self.stmts(split_stmts(s[m.end():c1]), env)
+                b2 = self.stmts(split_stmts(me.group(1)), env)
+                txt = "if negb (%s =? 0) then\n  %s\n  else\n  %s" % (self.val(m.group(1), env)[0], b1, b2)
+                return txt if last else then("(%s)" % txt)
+        # one-branch statement on a fresh read: if E? != NULL { B }
+        m = re.match(r"if (map\.beta_transac::<\d>\(t, \w+\)\?) != NULL_DART_ID \{", s)
+        if m and match_close(s, m.end() - 1) == len(s) - 1:
+            x = self.fresh("x")
+            b1 = self.stmts(split_stmts(s[m.end():-1]), env)
+            return "%s <- %s ;;\n  %s" % (x, self.eff(m.group(1), env)[0], then("(if negb (%s =? 0) then %s else Ret tt)" % (x, b1)))
         # conditional core: if X != NULL { try_or_coerce!(CALL, E); }
         m = re.fullmatch(r"if (\w+) != NULL_DART_ID \{ try_or_coerce!\( ?(.+?),? (\w+) ?\); \}", s)
         if m:
@@ -567,6 +598,8 @@ TARGETS = [
     ("swap_edge", "/repo/honeycomb-kernels/src/remeshing/swap.rs", "gen_swap_edge"),
     ("insert_vertex_on_edge", "/repo/honeycomb-kernels/src/cell_insertion/vertices.rs", "gen_insert_vertex_on_edge"),
     ("process_convex_cell", "/repo/honeycomb-kernels/src/triangulation/fan.rs", "gen_fan_convex_cell"),
+    ("collapse_halfcell_to_midpoint", "/repo/honeycomb-kernels/src/remeshing/collapse.rs", "gen_collapse_halfcell_to_midpoint"),
+    ("collapse_halfcell_to_base", "/repo/honeycomb-kernels/src/remeshing/collapse.rs", "gen_collapse_halfcell_to_base"),
 ]
 OUT = "/verif/coq/theories/Map2/GenKern.v"
 
